@@ -136,7 +136,7 @@ def work(name, src, payload):
                 ops += [('insert', d, o) for d in ('x = 1', 'if q:\n    r') for o in ({}, {'docstr': False},
                                                                                  {'docstr': 'strict'})]
             if cat == 'expr' and path[-1][1] is not None:
-                ops += [('replace', 'f(\n  1,\n  2)[\n 0]', {}), ('replace', 'p,\nq', {'one': False})]
+                ops += [('replace', 'f(\n  1,\n  2)[\n 0]', {})]
             for opt in ops:
                 op, donor = opt[0], opt[1]
                 opts = dict(opts0, **(opt[2] if len(opt) > 2 else {}))
@@ -174,6 +174,13 @@ def work(name, src, payload):
                             continue
                         newloc = tuple(n2.bloc) if cat == 'stmt' else (tuple(n2.pars()) if n2.pars() else tuple(n2.loc))
                         newloc = newloc[:4]
+                        if opts.get('one') is False:   # two elements were spliced in: the extent is their union
+                            p2 = path[:-1] + ((path[-1][0], path[-1][1] + 1),)
+                            n3 = follow(root, p2)
+                            if not n3:
+                                continue
+                            l3 = tuple(n3.pars()) if n3.pars() else tuple(n3.loc)
+                            newloc = (newloc[0], newloc[1], l3[2], l3[3])
                 except Exception:
                     distinct.add(('refused', path, op, donor, trivia, str(opt[2:])))
                     continue
